@@ -59,8 +59,33 @@ def uncond_problems(eff, allowed_cases=()):
             continue
         if any(pred(c) for pred in allowed_cases):
             continue
+        if _error_exit_guard(eff, c):
+            continue
         bad.append(c)
     return bad
+
+
+def _error_exit_guard(eff, c):
+    """a build-time branch whose other side only returns an error / panics (ensure!, bail!, assert!, a match on a
+    Result whose Err arm returns): the code below it still runs on every successful construction"""
+    if len(c) < 5 or not hasattr(eff, "frame") or eff.frame is None:
+        return False
+    from . import guards, cfg
+    body = eff.frame.ev.prog.bodies.get(c[4])
+    if body is None:
+        return False
+    a = c[3]
+    t = body.blocks[a]["t"]
+    if t["k"] != "switch":
+        return False
+    taken = set()
+    for s in cfg.succs(body)[a]:
+        vals = cfg.switch_edge_value(body, a, s)
+        if set(vals) & set(c[2]):
+            taken.add(s)
+    F = guards.Fail(body)
+    others = [s for s in cfg.succs(body)[a] if s not in taken]
+    return bool(others) and all(F.edge_fails(a, s) or body.blocks[s]["t"]["k"] == "unreachable" for s in others)
 
 
 def require_uncond(ck, eff, rule, key, what, allowed_cases=()):
